@@ -77,16 +77,22 @@ def consHead (c : Char) : List Bytes → List Bytes
   | [] => [[c]]
   | l :: ls => (c :: l) :: ls
 
-/-- `bytes.Split(b, "\n")` / `strings.Split(s, "\n")`: never empty. -/
-def splitNl : Bytes → List Bytes
+/-- split at every occurrence of the character `sep`: never empty (`strings.Split` with a one-byte separator) -/
+def splitCh (sep : Char) : Bytes → List Bytes
   | [] => [[]]
-  | c :: cs => if c == '\n' then [] :: splitNl cs else consHead c (splitNl cs)
+  | c :: cs => if c == sep then [] :: splitCh sep cs else consHead c (splitCh sep cs)
 
-/-- `bytes.Join(ls, "\n")` / `strings.Join(ls, "\n")` -/
-def joinNl : List Bytes → Bytes
+/-- `strings.Join` with a one-byte separator -/
+def joinCh (sep : Char) : List Bytes → Bytes
   | [] => []
   | [l] => l
-  | l :: l' :: ls => l ++ '\n' :: joinNl (l' :: ls)
+  | l :: l' :: ls => l ++ sep :: joinCh sep (l' :: ls)
+
+/-- `bytes.Split(b, "\n")` / `strings.Split(s, "\n")`: never empty. -/
+def splitNl (b : Bytes) : List Bytes := splitCh '\n' b
+
+/-- `bytes.Join(ls, "\n")` / `strings.Join(ls, "\n")` -/
+def joinNl (ls : List Bytes) : Bytes := joinCh '\n' ls
 
 /-- concatenate `line ++ "\n"` for every line (what the writers produce) -/
 def unlines (ls : List Bytes) : Bytes := (ls.map (· ++ ['\n'])).flatten
@@ -190,5 +196,45 @@ def fromHex? (s : String) : Option Bytes :=
   if s == "-" then some [] else fromHexAux s.toList
 
 def toHexArg (b : Bytes) : String := if b.isEmpty then "-" else toHex b
+
+end Crs
+
+namespace Crs
+
+/-! ### UTF-8 decoding as Go does it (`utf8.DecodeRune`): width of the first rune, 1 for an invalid byte -/
+
+def isCont (c : Char) : Bool := 0x80 ≤ c.toNat && c.toNat ≤ 0xBF
+
+/-- (code point, width) of the first rune; invalid encodings give (0xFFFD, 1) -/
+def decodeRune : Bytes → Nat × Nat
+  | [] => (0xFFFD, 0)
+  | b0 :: rest =>
+    let x := b0.toNat
+    if x < 0x80 then (x, 1)
+    else if 0xC2 ≤ x && x ≤ 0xDF then
+      match rest with
+      | b1 :: _ => if isCont b1 then ((x - 0xC0) * 64 + (b1.toNat - 0x80), 2) else (0xFFFD, 1)
+      | [] => (0xFFFD, 1)
+    else if 0xE0 ≤ x && x ≤ 0xEF then
+      match rest with
+      | b1 :: b2 :: _ =>
+        let lo := if x == 0xE0 then 0xA0 else 0x80
+        let hi := if x == 0xED then 0x9F else 0xBF
+        if lo ≤ b1.toNat && b1.toNat ≤ hi && isCont b2 then
+          ((x - 0xE0) * 4096 + (b1.toNat - 0x80) * 64 + (b2.toNat - 0x80), 3)
+        else (0xFFFD, 1)
+      | _ => (0xFFFD, 1)
+    else if 0xF0 ≤ x && x ≤ 0xF4 then
+      match rest with
+      | b1 :: b2 :: b3 :: _ =>
+        let lo := if x == 0xF0 then 0x90 else 0x80
+        let hi := if x == 0xF4 then 0x8F else 0xBF
+        if lo ≤ b1.toNat && b1.toNat ≤ hi && isCont b2 && isCont b3 then
+          ((x - 0xF0) * 262144 + (b1.toNat - 0x80) * 4096 + (b2.toNat - 0x80) * 64 + (b3.toNat - 0x80), 4)
+        else (0xFFFD, 1)
+      | _ => (0xFFFD, 1)
+    else (0xFFFD, 1)
+
+def runeLen (b : Bytes) : Nat := (decodeRune b).2
 
 end Crs
